@@ -415,8 +415,8 @@ def run_impl(case):
         r = HTTPResponse()
         try:
             r.status = case['arg']
-        except ValueError:
-            return dict(status='ValueError')
+        except (ValueError, IndexError) as e:
+            return dict(status=type(e).__name__)
         return dict(status='ok', code=r._status_code, line=r._status_line)
     import ombott.ombott as om
     rec = Rec()
@@ -429,8 +429,18 @@ def run_impl(case):
         om.format_exc = saved
 
 
+def status_unmodelled(case):
+    a = case['arg']
+    if isinstance(a, int) or ' ' not in a:
+        return False
+    tok = a.split()[:1]
+    return bool(tok) and not tok[0].isascii()
+
+
 def project(obs, case):
-    if case['kind'] == 'status' or 'events' not in obs:
+    if case['kind'] == 'status':
+        return dict(status='unmodelled') if status_unmodelled(case) else obs
+    if 'events' not in obs:
         return obs
     return dict(events=[e for e in obs['events'] if e[0] not in ('next', 'read')], escaped=obs['escaped'] is not None)
 
@@ -609,7 +619,7 @@ def decode(out, case):
     if case['kind'] == 'status':
         if tag == 0:
             return dict(status='ok', code=q.int(), line=T(q.str()))
-        return dict(status={1: 'ValueError', 2: 'unmodelled'}.get(tag, 'tag%d' % tag))
+        return dict(status={1: 'ValueError', 2: 'unmodelled', 3: 'IndexError'}.get(tag, 'tag%d' % tag))
     if tag in (0, 1):
         return dict(events=q.list(dec_event), escaped=tag == 1)
     return dict(model_tag=tag)
@@ -658,6 +668,29 @@ def fails(h):
     return h['res']['k'] != 'ret'
 
 
+def well_typed_iterables(case):
+    """every iterable of the program yields, after leading empty items, only str or only bytes"""
+    ok = [True]
+
+    def f(d):
+        if d.get('k') == 'iter':
+            kinds = []
+            for it in d['items']:
+                if it['k'] != 'yield':
+                    kinds.append('raise')
+                    continue
+                o = it['o']
+                if o['k'] == 'falsy' or (o['k'] == 'str' and not o['s']) or (o['k'] == 'bytes' and not o['b']):
+                    if kinds:          # an empty item after the first real one must have its type
+                        kinds.append(o['k'])
+                    continue
+                kinds.append(o['k'])
+            if kinds and kinds[0] in ('str', 'bytes') and any(k != kinds[0] for k in kinds[1:]):
+                ok[0] = False
+    walk(case, f)
+    return ok[0]
+
+
 def oracle(case, obs):
     if case['kind'] == 'status':
         if obs.get('status') == 'ok':
@@ -678,9 +711,10 @@ def oracle(case, obs):
     if len(starts) != 1:
         return 'start_response called %d times' % len(starts)
     if obs['problems']:
-        # a non-bytes chunk after a well-typed first chunk, or an exception during iteration after the
-        # first chunk, is outside the property (the quantifier covers well-typed iterables)
-        pr = [p for p in obs['problems']]
+        # a non-bytes chunk after a well-typed first chunk is outside the property (the quantifier covers
+        # iterables of str or of bytes), and so is a header name/value the handler chose badly (C14)
+        typed = well_typed_iterables(case)
+        pr = [p for p in obs['problems'] if not (p.startswith('chunk of type') and not typed)]
         if pr:
             return 'PEP 3333 validator: ' + '; '.join(pr[:3])
     start = starts[0]
@@ -694,7 +728,7 @@ def oracle(case, obs):
     if nobody and total:
         return 'a %d response to %s carries %d body bytes' % (code, case['method'], total)
     raised = any(e[0] == 'iter_raise' for e in ev)
-    if raised and not any(c != 'bad' and len(c) for c in chunks):
+    if raised and not chunks:
         return 'iterating the returned object raised before the first body chunk'
     if not nobody and not raised and not mentions_content_length(case) and not start[3]:
         cl = [v for n, v in start[2] if n.lower() == 'content-length']
